@@ -104,6 +104,9 @@ def run(F, rep, tier):
     mf_ = c19.meta_functions(ast_)
     c19.arith(rep, mf_, F)
     c19.concat(rep, ast_)
+    # .. and comparisons: `==`, `<`, `<=` on tuples, lists, blobs and enum values are the runtime's metamethods too
+    c19.equality(rep, mf_)
+    c19.ordering(rep, mf_)
     # reading an element of a tuple / list / blob yields the element - `false` included (shared with C18)
     import c18 as _c18
     _c18.presence_is_not_truth(rep, _c18.Lua(F.read("sylt-compiler/src/preamble.lua")))
@@ -547,6 +550,29 @@ def instruction_lists_are_only_joined(F, rep, rule="IRP-list"):
            "else - the result temporaries of a nested function literal declared in the enclosing function are shared by all its "
            "activations" % (last(bad[0][0]["_path"], 2), bad[0][1]["m"]), line_of(bad[0][1]) if bad else None)
     rep.floor(rule, "operations on instruction lists", n, 10)
+    # .. and an instruction, once made, is not rewritten where it lies: the one exception is the function literal of a definition,
+    # whose IR::Function is given the variable's own name (reviewed: nothing else names that temporary)
+    inplace = []
+    m_ = 0
+    for fn in F.fns_in(IRG):
+        if last(fn["_path"]) in ("count_usages",):
+            continue
+        for c in nodes(fn_body(fn)):
+            if c.get("k") == "MethodCall" and "intermediate::IR" in (c.get("recv_ty") or "") and \
+                    c["m"] in ("last_mut", "first_mut", "iter_mut", "get_mut", "as_mut_slice", "split_last_mut", "split_first_mut", "as_mut", "fill", "fill_with"):
+                m_ += 1
+                inplace.append((fn, c, ".%s()" % c["m"]))
+            if c.get("k") == "Assign" and peel(c.get("l") or {}).get("k") == "Index" and "intermediate::IR" in (peel(c["l"]).get("base_ty") or ""):
+                m_ += 1
+                if not (last(fn["_path"]) == "definition" and "IR::Function" in pp(c.get("r"))[:40]):
+                    inplace.append((fn, c, pp(c)[:40]))
+    rep.ob(rule, "instructions-are-not-rewritten-in-place", not inplace,
+           "no instruction is rewritten after it was made (%d reviewed in-place store: a definition's function literal takes the variable's name)" % m_
+           if not inplace else
+           "%s rewrites an instruction of a finished list in place (`%s`): the temporary the instruction defined is what the rest of the "
+           "list - and the use counts - refer to; renamed into a variable, a value the emitter inlines at its one use is built anew at every "
+           "run of that use instead of once where the definition stands" % (last(inplace[0][0]["_path"], 2), inplace[0][2]),
+           line_of(inplace[0][1]) if inplace else None)
 
 
 def children_lowered_as_written(F, rep, rule="IRP-child"):
